@@ -653,7 +653,8 @@ int process_patch(const Options& options)
             // Nothing else to do other than write to stdout :^)
             tmp_out_file.write_entire_contents_to(stdout);
         } else {
-            bool write_to_file = !options.dry_run;
+            // A patch which was skipped has changed nothing, so there is nothing to write back to the file.
+            bool write_to_file = !options.dry_run && !(result.was_skipped && options.out_file_path.empty());
             const bool should_backup = options.save_backup || (!result.all_hunks_applied_perfectly && !result.was_skipped && options.backup_if_mismatch == Options::OptionalBool::Yes);
 
             // Clean up the file if it looks like it was removed.
